@@ -120,9 +120,61 @@ def reentrant_fanout():
                     sig[key]["count"] += 1
                 else:
                     sig[key] = {"clause": key[0], "disc": key[1], "what": what, "count": 1, "replay": {"reentrant": True}}
+    real_connection_fanout(res, sig)
     res["violations"] = list(sig.values())
     res["states"] = 1
     return res
+
+
+def real_connection_fanout(res, sig):
+    """the clients are the library's own TCP connection handlers (real StreamWriter over a fake transport): every device
+    message reaches every connection exactly once, also when one of them applies back-pressure (its drain() suspended)
+    while the messages are routed - in one loop iteration or in several - and catches up later"""
+    import indi.message as M
+    from indi.message import one_parts
+    from indi.routing import Router
+    from indi.transport.server.tcp import ConnectionHandler as ServerH
+
+    from mc.core import vloop as V
+    from mc.ref import xmlview as X
+
+    for slow in (None, 0, 1):
+        for batch in (1, 3):
+            for nmsg in (3, 5):
+                loop = V.VLoop().install()
+                try:
+                    router = Router()
+                    eps = [V.Endpoint(loop, "c%d" % i) for i in range(2)]
+                    [ServerH(ep.reader, ep.writer, router) for ep in eps]
+                    if slow is not None:
+                        eps[slow].pause()
+                    msgs = [M.SetTextVector(device="D", name="V", state="Ok", children=[one_parts.OneText(name="a", value="m%d" % i)]) for i in range(nmsg)]
+                    exc = None
+                    try:
+                        for i in range(0, nmsg, batch):
+                            for m in msgs[i : i + batch]:
+                                router.process_message(m, sender=None)
+                            loop.quiesce()
+                        if slow is not None:
+                            eps[slow].resume()
+                        loop.quiesce()
+                    except Exception as e:  # noqa
+                        exc = e
+                    res["transitions"] += nmsg
+                    res["sends"] += nmsg
+                    for ci, ep in enumerate(eps):
+                        els, rest = X.split_elements(ep.written().decode("latin1"))
+                        got = [e.split(">m")[1].split("<")[0] for e in els if ">m" in e]
+                        res["deliveries"] += len(got)
+                        if exc is not None or got != [str(i) for i in range(nmsg)]:
+                            key = ("delivery-set", "real-tcp-connections,%s" % ("back-pressure" if slow is not None else "no-back-pressure"))
+                            what = "slow connection %r, %d messages in batches of %d: connection %d got %r (%r)" % (slow, nmsg, batch, ci, got, exc)
+                            if key in sig:
+                                sig[key]["count"] += 1
+                            else:
+                                sig[key] = {"clause": key[0], "disc": key[1], "what": what, "count": 1, "replay": {"reentrant": True}}
+                finally:
+                    loop.teardown()
 
 
 def check(model, ev, got, exc, exp):
